@@ -299,8 +299,11 @@ pub fn def() -> PropDef {
     PropDef {
         id: "C09",
         level: "exploration",
-        rule: "one case = ROUTER socket with 1..4 scripted peers (DEALER/REQ/ROUTER; identity none, empty, or announced: 1, 16 or 255 bytes, leading zero byte, all zeros, embedded zeros, 0xff bytes, one a prefix of another), each sending 1..4 tagged messages at drawn times, some departing after the handshake; then 1..8 routed sends to targets drawn from {each peer, departed peer, unknown identity (empty, 1, 17, 256 bytes, near misses of a connected peer's identity: one byte longer / shorter / last byte changed)}; taps snapshotted around every send; transport and schedule drawn per case; non-trivial = more than one peer and at least one routed send judged; distinct = distinct (plan, schedule, transport) hashes",
+        rule: "one case = ROUTER socket with 1..4 scripted peers (DEALER/REQ/ROUTER; identity none, empty, or announced: 1, 16 or 255 bytes, leading zero byte, all zeros, embedded zeros, 0xff bytes, one a prefix of another), each sending 1..4 tagged messages at drawn times, some departing after the handshake; then 1..8 routed sends to targets drawn from {each peer, departed peer, unknown identity (empty, 1, 17, 256 bytes, near misses of a connected peer's identity: one byte longer / shorter / last byte changed)}; taps snapshotted around every send; transport and schedule drawn per case; rejoin_routable: the ROUTER departure/rejoin histories of C16 judged for label and routability of the rejoined peer, right after the rejoin and again after further recv calls; non-trivial = more than one peer and at least one routed send judged; distinct = distinct (plan, schedule, transport) hashes",
         assumptions: &["announced identities are unique (the generator never duplicates them)", "single-frame sends are outside the statement (the socket asserts on them)", "a departed peer is used as a target only once its connection is closed"],
-        strata: vec![Stratum { name: "router_world", quick: 120_000, thorough: (2_000_000) * 5, exhaustive: (false, false), run: router_world, what: "labelling of inbound messages and routing of outbound ones, checked on connection taps" }],
+        strata: vec![
+            Stratum { name: "router_world", quick: 120_000, thorough: (2_000_000) * 5, exhaustive: (false, false), run: router_world, what: "labelling of inbound messages and routing of outbound ones, checked on connection taps" },
+            Stratum { name: "rejoin_routable", quick: 9_600, thorough: 800_000, exhaustive: (false, false), run: super::c16::rejoin_routable, what: "a peer that comes back under its announced identity (16 departure/rejoin histories) stays labelled with it and routable, also after further recv calls" },
+        ],
     }
 }
